@@ -5,9 +5,9 @@ ID=$1; NAME=${2:-$1}; WT=/tmp/wt/$NAME
 cd $WT || exit 2
 cp -r _seed /tmp/_seed_$NAME
 git checkout -q -- src tools
-PYTHONPATH=$WT/src /venv/bin/python /tmp/_seed_$NAME/demo.py >/tmp/_seed_$NAME/demo_clean.log 2>&1; CLEAN=$?
+PYTHONPATH=$WT/src /venv/bin/python $WT/_seed/demo.py >/tmp/_seed_$NAME/demo_clean.log 2>&1; CLEAN=$?
 git apply /tmp/_seed_$NAME/patch.diff || { echo "$NAME: patch does not apply"; exit 2; }
-PYTHONPATH=$WT/src /venv/bin/python /tmp/_seed_$NAME/demo.py >/tmp/_seed_$NAME/demo_mut.log 2>&1; MUT=$?
+PYTHONPATH=$WT/src /venv/bin/python $WT/_seed/demo.py >/tmp/_seed_$NAME/demo_mut.log 2>&1; MUT=$?
 PYTHONPATH=$WT/src /venv/bin/python -m pytest -q -p no:cacheprovider --timeout=900 test --junitxml=/tmp/_seed_$NAME/junit.xml >/tmp/_seed_$NAME/tests.log 2>&1
 MISSING=$(python3 - <<PY
 import json,xml.etree.ElementTree as ET
